@@ -102,5 +102,10 @@ let handle = function
     else
       let r = pparse_with text re_at (set_of alnum) (set_of alpha) (map_of lower) (map_of upper) ic unsafe rules ec act lineat (to_nat fuel) (to_nat start) in
       show_res r (L [])
+  | L [A "layer"; L defaults; L ct; L dir; L pt] ->
+    (* fields: (name value-or-none) *)
+    let kv = function L [k; v] -> (to_str k, to_opt to_n v) | _ -> failwith "kv" in
+    let r = effective (List.map kv defaults) (List.map kv ct) (List.map kv dir) (List.map kv pt) in
+    L (List.map (fun (k, v) -> L [of_str k; of_opt of_n v]) r)
   | _ -> A "bad-request"
 let () = serve handle
